@@ -174,8 +174,9 @@ def template2(pat, mp):
     import re._parser as sp
 
     items = list(sp.parse(pat))
-    if str(items[0][0]) != "SUBPATTERN" or str(items[0][1][3][0][0]) != "MAX_REPEAT" or str(items[0][1][3][0][1][2][0][0]) != "ANY":
+    if str(items[0][0]) != "SUBPATTERN" or str(items[0][1][3][0][0]) not in ("MAX_REPEAT", "MIN_REPEAT") or str(items[0][1][3][0][1][2][0][0]) != "ANY":
         raise Unsupported("pattern2 head")
+    greedy = str(items[0][1][3][0][0]) == "MAX_REPEAT"
     lit1, i = "", 1
     while str(items[i][0]) == "LITERAL":
         lit1 += chr(items[i][1])
@@ -190,7 +191,7 @@ def template2(pat, mp):
         raise Unsupported("map2")
     if any(mp.get(f) != "None" for f in ("customer", "project", "device")):
         raise Unsupported("map2 none fields")
-    return dict(lit1=lit1, width=dg[1], lit2=lit2)
+    return dict(lit1=lit1, width=dg[1], lit2=lit2, greedy=greedy)
 
 
 # ---------------------------------------------------------------------------
@@ -252,7 +253,8 @@ def model_parse(P, s):
         return init_map(P, vals["customer"], vals["project"], vals["device"], vals["version"], name)
     line = s.split("\n")[0]
     need = len(t2["lit1"]) + t2["width"] + len(t2["lit2"])
-    for i in range(len(line) - need, -1, -1):
+    rng = range(len(line) - need, -1, -1) if t2.get("greedy", True) else range(0, len(line) - need + 1)
+    for i in rng:
         seg = line[i : i + need]
         dig = seg[len(t2["lit1"]) : len(t2["lit1"]) + t2["width"]]
         if seg.startswith(t2["lit1"]) and seg.endswith(t2["lit2"]) and all(ch in "0123456789" for ch in dig):
@@ -512,7 +514,12 @@ def run_text_query(P, q):
         occ = "(and (>= i 0) (<= (+ i %d) (str.len s)) (str.prefixof %s %s) (= (str.substr s (+ i %d) %d) %s) %s)" % (need, lit(t2["lit1"]), seg, len(t2["lit1"]) + t2["width"], len(t2["lit2"]), lit(t2["lit2"]), digc)
         pver = "(+ " + " ".join("(* %d (dv (str.at s (+ i %d))))" % (10 ** (t2["width"] - 1 - k), len(t2["lit1"]) + k) for k in range(t2["width"])) + " 0)"
         digre = " ".join('(re.range "0" "9")' for _ in range(t2["width"]))
-        later = "(str.in_re (str.substr s (+ i 1) (str.len s)) (re.++ re.all (str.to_re %s) %s (str.to_re %s) re.all))" % (lit(t2["lit1"]), digre, lit(t2["lit2"]))
+        if t2.get("greedy", True):
+            # greedy (.*): no further occurrence to the right
+            later = "(str.in_re (str.substr s (+ i 1) (str.len s)) (re.++ re.all (str.to_re %s) %s (str.to_re %s) re.all))" % (lit(t2["lit1"]), digre, lit(t2["lit2"]))
+        else:
+            # lazy (.*?): no occurrence that starts further left
+            later = "(str.in_re (str.substr s 0 (+ i %d)) (re.++ re.all (str.to_re %s) %s (str.to_re %s) re.all))" % (need - 1, lit(t2["lit1"]), digre, lit(t2["lit2"]))
         if kind == "nameonly-adversarial":
             # is there a name for which the printed text is read back as a numeric identifier?
             L.append("(assert %s)" % match1)
